@@ -48,6 +48,11 @@ func checkC15(r *Run) {
 	c15LockDiscipline(r, m, eff, reach)
 
 	// r3: ownership on error paths (shared with C05).
+	if r.borrowed == nil {
+		// DecRef completes its bookkeeping whatever Close returns (C05.r4): a failing Close
+		// must not leave the reference registered or its parent pinned
+		r.borrow(checkC05, map[string]string{"r4": "r3"})
+	}
 	r.alias = map[string]string{"r1": "r3", "r2": "r3", "r3": "r3", "r4": "r3", "r5": "r3"}
 	c15Ownership(r, m)
 	r.alias = nil
